@@ -93,6 +93,10 @@ Definition from_slice_step (o : options) (st : fs_state) (c : chunk) : res fs_st
   else if cname_eqb name name_tRNS then
     Ok (upd (fs_idat st) (fs_ihdr st) (fs_plte st) (Some (c_data c)) (fs_aux st) (fs_frames st) (fs_seq st))
   else if strip_keep (strip o) name then
+    (* the animation chunks are stripped together unless all three are kept *)
+    if (cname_eqb name name_acTL || cname_eqb name name_fcTL || cname_eqb name name_fdAT)
+       && negb (strip_keep (strip o) name_acTL && strip_keep (strip o) name_fcTL && strip_keep (strip o) name_fdAT)
+    then Ok st else
     if is_c2pa name (c_data c) then
       (if strip_is_none (strip o) then Ok st else Err EC2PA)
     else if cname_eqb name name_fcTL || cname_eqb name name_fdAT then
